@@ -58,7 +58,9 @@ MoreAtoms == {
   Pj(<<VIv(1, 0, <<<<3, 1>>>>), VIv(2, 0, <<<<1, 1>>, <<3, 1>>>>)>>) }
 Atoms == IF AtomSet = "small" THEN SmallAtoms ELSE SmallAtoms \cup MoreAtoms
 
-QAtoms == {[t |-> "Q", dom |-> <<2, 3>>, cod |-> <<1>>], [t |-> "Q", dom |-> <<1>>, cod |-> <<2>>]}
+\* (the last two have the same sort key in y0: smallest domain name, smallest codomain name)
+QAtoms == {[t |-> "Q", dom |-> <<1, 2>>, cod |-> <<1>>], [t |-> "Q", dom |-> <<1>>, cod |-> <<2>>],
+           [t |-> "Q", dom |-> <<2, 3>>, cod |-> <<1>>], [t |-> "Q", dom |-> <<2>>, cod |-> <<1>>]}
 
 \* generic distribution for the calculator: complete DAG 1 -> 2 -> ... over the names, one latent
 \* common to all of them (clique layout), two source populations with fresh mechanisms everywhere
@@ -81,6 +83,10 @@ Succ(x) ==
 \cup {[op |-> "mul", a |-> y, b |-> x] : y \in {A(p) : p \in SmallAtoms}}
 \cup {[op |-> "div", a |-> x, b |-> y] : y \in Operands}
 \cup {[op |-> "div", a |-> y, b |-> x] : y \in {A(p) : p \in SmallAtoms} \cup {[op |-> "one"]}}
+\* the raw constructors Fraction(a, b) / Product((a, b)): no flattening, no sorting
+\cup {[op |-> "rdiv", a |-> x, b |-> y] : y \in {A(p) : p \in SmallAtoms}}
+\cup {[op |-> "rdiv", a |-> y, b |-> x] : y \in {A(p) : p \in SmallAtoms}}
+\cup {[op |-> "rmul", a |-> y, b |-> x] : y \in {A(p) : p \in SmallAtoms}}
 \cup {[op |-> "marg",  r |-> SetToSeq(r), a |-> x] : r \in Ranges(x)}
 \cup (IF HasMarks(Math(x)) THEN {} ELSE {[op |-> "cond",  r |-> SetToSeq(r), a |-> x] : r \in Ranges(x)})
 \cup {[op |-> "nmarg", r |-> SetToSeq(r), a |-> x] : r \in Ranges(x)}
